@@ -103,6 +103,25 @@ tabulated: the documented rule is applied to the object the template calls
 the decorator copied onto its product counts.  Refused -> 0 invocations and
 SecurityError; not refused -> the call runs without SecurityError.  Same
 obtain x wrapper x site grammar, marker-free twin of the same chain must run.
+
+Eighth part, *how the marker is visible*: unsafe_callable / alters_data (and
+the attribute an overridden is_safe_callable reads) are attributes of the
+called object, and Python attribute access has many sources.  The marker, True
+or False, is made visible through (vt/gen/c18_visible.py): the __dict__ of a
+function or of a callable instance, the class, a base class, a property (own,
+inherited, reading instance state), a non-data / data descriptor, a slot, a
+class __getattr__ answering the marker names, a __getattribute__ override (also
+saying False over a class attribute that says True), a transparent forwarding
+proxy in the style of werkzeug LocalProxy / django SimpleLazyObject (__getattr__
+forwards every attribute, __call__ forwards the call) around a marked function,
+a factory producing the target on every access, a bound method, a callable
+object, a pass_context function, another proxy, the same with __class__
+forwarded as well, a bound method whose __func__ is such a proxy, and the
+metaclass (attribute, property, __getattr__) of a class the template
+instantiates.  The verdict is computed with plain getattr on the called object
+(the documented rule); refused -> 0 invocations and SecurityError, otherwise the
+call runs without SecurityError.  Same obtain x wrapper x site grammar, the
+marker-free twin of the same construction must run.
 """
 from __future__ import annotations
 
@@ -110,6 +129,7 @@ import functools
 import json
 
 from vt.gen import c18_ccall as CC
+from vt.gen import c18_visible as VS
 from vt.gen import c18_wrapped as WR
 
 PID = "C18"
@@ -123,7 +143,10 @@ TECHNIQUE = ("recording unsafe callables with an unmarked control twin over a co
              "C-implemented callables (observed through container side effects / recording arguments) "
              "under deny-list, type-ban and allow-list overrides of is_safe_callable; the twin oracle over "
              "products of 24 decorator chains x 6 marker positions x 4 marks with the verdict computed from "
-             "the documented rule applied to the called object (both directions)")
+             "the documented rule applied to the called object (both directions); the twin oracle over 24 ways "
+             "of making the marker visible to attribute lookup (dict, class, property, descriptor, slot, "
+             "__getattr__/__getattribute__, forwarding proxies, metaclass) x 3 marks x true/false, verdict "
+             "computed with getattr on the called object")
 RULE = ("case = (obtain form x alias wrapper x call site x argument form x callable kind x mark "
         "x environment kind x sync/async x extension set [do only / i18n+do+loopcontrols+debug with "
         "gettext callables absent, old-style, new-style]); base coverage enumerates every (site, kind, mark) and "
@@ -180,8 +203,19 @@ RULE = ("case = (obtain form x alias wrapper x call site x argument form x calla
         "arguments x environment kind x sync/async x extension set): every (chain, position, mark) row with "
         "3 (thorough: 8) rotating sites, the first at the print site, plus seeded sampling; counted only when "
         "the marker-free twin of the same chain is invoked; expected verdict = the documented rule applied "
-        "to the object the template calls")
-LEVEL_TEXT = ("decorated callables: on every reached (chain, marker position, mark) row the call was refused "
+        "to the object the template calls; marker-visibility cases = (form of visibility [24: function __dict__, "
+        "instance __dict__, class attribute, base class attribute, property own / inherited / reading instance "
+        "state, non-data descriptor, data descriptor, slot, class __getattr__, __getattribute__ override, "
+        "forwarding proxy around a function / lazy factory / bound method / callable object / pass_context "
+        "function / another proxy, __class__-forwarding proxy around a function / bound method, bound method "
+        "of a proxy, metaclass attribute / property / __getattr__ of an instantiated class] x mark [unsafe, "
+        "alters_data, override attribute] x value [true, false] x obtain x wrapper x site x arguments x "
+        "environment kind x sync/async x extension set): every (form, mark, value) row with 3 (thorough: 10) "
+        "rotating sites, the first at the print site, plus seeded sampling; counted only when the marker-free "
+        "twin of the same construction is invoked; expected verdict = getattr on the called object")
+LEVEL_TEXT = ("marker visibility: on every reached (form, mark, value) row the call was refused (0 invocations, "
+              "SecurityError) iff getattr on the called object shows a true marker, and ran otherwise; "
+              "decorated callables: on every reached (chain, marker position, mark) row the call was refused "
               "(0 invocations, SecurityError) iff the called object itself shows a true marker / is rejected "
               "by the override, and ran otherwise; "
               "C-level callables: 0 observed invocations and SecurityError on every reached (kind, policy, "
@@ -205,6 +239,7 @@ ASSUMPTIONS = [
     "resolved names: a call the engine makes because the template wrote `_(...)` or a trans block counts as a call written in the template (`_` is documented as the alias of gettext and trans as calling gettext/ngettext/pgettext/npgettext); the callable is bound to the name by the template, the render data or env.globals. Translation callables the application registers through install_gettext_callables / install_null_translations are application hooks and are never marked",
     "flag combinations: the attribute values are the booleans True / False or the attribute is absent (other truthy values are not generated); 'on the object the template calls' means ordinary attribute lookup on that object (instance, then class, then base classes; a bound method shows the attributes of its function), which is how both documented markers (the unsafe decorator, func.alters_data = True) are written; attributes set only on the __call__ function of a callable object are not generated",
     "decorated callables: the verdict is that of the object the template calls: is_safe_callable documents 'callables are considered safe unless decorated with unsafe' and 'func.alters_data = True', both attributes of the called object; a marker on a function that the called object merely wraps counts only when the decorator copied it onto its product (functools.update_wrapper copies __dict__; partial, partialmethod and updated=() do not), and __wrapped__ is not followed. The identity deny-list override rejects exactly the listed objects. Invocation is recorded in the innermost function (the caches and partial are C code), for contextmanager functions in a plain function that returns the generator, for __wrapped__-elsewhere objects in the called object; arguments are hashable and include one positional argument (singledispatch)",
+    "marker visibility: is_safe_callable documents the markers as attributes of the callable ('decorated with unsafe', 'func.alters_data = True'), so the verdict is what getattr(obj, name, False) gives on the object the template calls, whatever makes the attribute visible (instance, class, property, descriptor, __getattr__ / __getattribute__, a proxy forwarding attribute access to the wrapped callable, the metaclass for a class); the values are the booleans True / False, the lookup has no side effects and gives the same answer every time, properties and hooks never raise anything but AttributeError for names they do not know; proxies are called through their own __call__ (a proxy that is not itself callable is not generated)",
     "extensions other than i18n, do, loopcontrols and debug are not loaded; only the resolved-name part runs with more than the do extension",
     "histories also require the reverse direction: once a mark or deny-list entry is removed the call must be let through again (reported under history-wrongly-blocked keys)",
 ]
@@ -244,6 +279,13 @@ FLOORS = {
                            "wrapped_position:inner_after": 95, "wrapped_position:both": 95,
                            "wrapped_position:middle": 20, "wrapped_position:outer_false_inner_true": 70,
                            **{"wrapped_chain:" + c: 15 for c in WR.CHAINS},
+                           "visible_cases": 200, "visible_security_errors": 100, "visible_allowed_calls": 100,
+                           "visible_dynamic_only_cases": 150, "visible_dynamic_only_refused_expected": 75,
+                           "visible_dynamic_only_allowed_expected": 75, "visible_proxy_cases": 70,
+                           "visible_async_cases": 55, "visible_override_env_cases": 110,
+                           "visible_mark:unsafe": 60, "visible_mark:alters": 60, "visible_mark:override": 60,
+                           "visible_value:true": 100, "visible_value:false": 100,
+                           **{"visible_form:" + v: 6 for v in VS.VIS},
                            "ccall_cases": 600, "ccall_security_errors": 600,
                            "ccall_target_rejected_by_override": 550, "ccall_async_cases": 170,
                            "ccall_controls_ok": 12,
@@ -289,6 +331,15 @@ FLOORS = {
                               "wrapped_position:middle": 70,
                               "wrapped_position:outer_false_inner_true": 300,
                               **{"wrapped_chain:" + c: 70 for c in WR.CHAINS},
+                              "visible_cases": 1800, "visible_security_errors": 900,
+                              "visible_allowed_calls": 900,
+                              "visible_dynamic_only_cases": 1300, "visible_dynamic_only_refused_expected": 650,
+                              "visible_dynamic_only_allowed_expected": 650, "visible_proxy_cases": 600,
+                              "visible_async_cases": 450, "visible_override_env_cases": 900,
+                              "visible_mark:unsafe": 500, "visible_mark:alters": 500,
+                              "visible_mark:override": 500,
+                              "visible_value:true": 900, "visible_value:false": 900,
+                              **{"visible_form:" + v: 60 for v in VS.VIS},
                               "ccall_cases": 4000, "ccall_security_errors": 4000,
                               "ccall_target_rejected_by_override": 3600, "ccall_async_cases": 1000,
                               "ccall_controls_ok": 12,
@@ -2422,6 +2473,138 @@ def wrapped_random_case(rng):
             return c
 
 
+# --------------------------------------------------- visibility of the marker
+# Eighth part: HOW the marker shows on the object the template calls
+# (vt/gen/c18_visible.py builds the objects): instance __dict__, class, base
+# class, property, descriptor, slot, __getattr__ / __getattribute__, transparent
+# forwarding proxies (also with __class__ forwarding, around functions, bound
+# methods, callable objects, pass_context functions), a bound method over a
+# proxy, the metaclass of a class the template instantiates.  Documented rule
+# (is_safe_callable): safe "unless decorated with unsafe" / "func.alters_data =
+# True" - attributes of the called object; the verdict is what plain getattr on
+# that object gives (wrapped_reference_refuses), in both directions.
+def visible_render(case, twin):
+    from jinja2.exceptions import SecurityError
+
+    rec = Rec()
+
+    def body():
+        rec.calls += 1
+        return Ret(1)
+    f = VS.build(case["vis"], case["mark"], case["value"], body, twin=twin)
+    source, templates = compose(case)
+    env = get_env(case["env"], case["async"], templates, case.get("ext", "do"))
+
+    class Holder:
+        pass
+    o = Holder()
+    o.m = f
+    data = {"f": f, "o": o, "d": {"f": f, "k": {"g": f}}, "l": [f], "t": (f,),
+            "nested": [{"f": [f]}]}
+    try:
+        out = env.from_string(source).render(**data)
+        exc = None
+    except SecurityError as e:
+        out, exc = None, ("SecurityError", str(e)[:200])
+    except Exception as e:
+        out, exc = None, (type(e).__name__, str(e)[:200])
+    return rec.calls, out, exc, source, templates, f
+
+
+def visible_valid(case):
+    if case["wrap"] == "aloop" and not case["async"]:
+        return False
+    if case["mark"] == "override" and case["env"] != "override":
+        return False
+    return True
+
+
+def run_visible_case(ctx, case, count=True):
+    """-> True if reached (the marker-free twin of the same construction runs)."""
+    import inspect
+
+    calls, out, exc, source, templates, _ = visible_render(case, twin=True)
+    if count:
+        ctx.ev()
+        ctx.count("visible_twin_renders")
+    if calls == 0 or exc is not None:
+        if count:
+            ctx.count("visible_unreached")
+        return False
+    mcalls, mout, mexc, _, _, f = visible_render(case, twin=False)
+    refused = wrapped_reference_refuses(f, case["env"], ())
+    sec = mexc is not None and mexc[0] == "SecurityError"
+    name = VS.MARK_ATTR[case["mark"]]
+    # (bookkeeping only: is the value plain getattr gives also what a lookup that runs no code of the
+    # object finds?)
+    static = inspect.getattr_static(f, name, None)
+    dynamic_only = static is not getattr(f, name, None)
+    if count:
+        ctx.ev()
+        ctx.count("visible_cases")
+        ctx.count("visible_form:" + case["vis"])
+        ctx.count("visible_mark:" + case["mark"])
+        ctx.count("visible_value:" + case["value"])
+        if dynamic_only:
+            ctx.count("visible_dynamic_only_cases")
+            ctx.count("visible_dynamic_only_refused_expected" if refused
+                      else "visible_dynamic_only_allowed_expected")
+        if case["vis"] in VS.PROXIES:
+            ctx.count("visible_proxy_cases")
+        if case["async"]:
+            ctx.count("visible_async_cases")
+        if case["env"] == "override":
+            ctx.count("visible_override_env_cases")
+        ctx.dist(["visible"] + [case[k] for k in ("vis", "mark", "value", "obtain", "wrap", "site", "args",
+                                                  "env", "async")] + [case.get("ext", "do")])
+    full = dict(case, visible=True, source=source, templates=templates)
+    mech = f"marker-visible-through={case['vis']}:mark={case['mark']}:value={case['value']}"
+    info_s = (f"{source!r} {templates or ''} (env {case['env']}, extensions {case.get('ext', 'do')}, "
+              f"async={case['async']}); the called object shows {name}={getattr(f, name, '<absent>')!r} to "
+              f"getattr, made visible through {case['vis']}")
+    if refused:
+        if mcalls:
+            ctx.violation("visible-invoked:" + mech,
+                          f"a callable the sandbox deems unsafe ran {mcalls}x: {info_s}; "
+                          f"outcome {mexc or mout!r}", full)
+        elif not sec:
+            ctx.violation("visible-no-security-error:" + mech,
+                          f"marker-free twin is invoked {calls}x, the marked callable was not, but "
+                          f"{info_s} gave {mexc or mout!r} instead of SecurityError", full)
+        elif count:
+            ctx.count("visible_security_errors")
+    else:
+        if sec or not mcalls:
+            ctx.violation("visible-wrongly-blocked:" + mech,
+                          f"the called object shows no true marker and is not rejected by the policy, the "
+                          f"marker-free twin is invoked {calls}x, but {info_s} gave invocations={mcalls}, "
+                          f"outcome {mexc or mout!r}", full)
+        elif count:
+            ctx.count("visible_allowed_calls")
+    return True
+
+
+def visible_case_for(j, vis, mark, value, site):
+    obs, wrs = list(OBTAIN), [w for w in WRAP if w != "aloop"]
+    return {"vis": vis, "mark": mark, "value": value, "obtain": obs[j % len(obs)],
+            "wrap": wrs[(j // 2) % len(wrs)] if j % 3 == 0 else "none", "site": site,
+            "args": VS.ARGS[j % len(VS.ARGS)],
+            "env": "override" if mark == "override" else ENVS[j % 3],
+            "async": j % 4 == 0, "ext": EXTS[(j // 3) % 4]}
+
+
+def visible_random_case(rng):
+    while True:
+        vis, mark, value = rng.choice(VS.rows())
+        c = {"vis": vis, "mark": mark, "value": value,
+             "obtain": rng.choice(list(OBTAIN)), "wrap": rng.choice(list(WRAP)),
+             "site": rng.choice(list(SITES)), "args": rng.choice(VS.ARGS),
+             "env": "override" if mark == "override" else rng.choice(ENVS),
+             "async": rng.random() < 0.3, "ext": rng.choice(EXTS)}
+        if visible_valid(c):
+            return c
+
+
 def run(ctx):
     import warnings
 
@@ -2569,6 +2752,29 @@ def run(ctx):
         run_wrapped_case(ctx, wrapped_random_case(rng))
     ctx.count("wrapped_core_cases", nwr)
     ctx.extra["wrapped_part_seconds_all_shards"] = round(ctx.elapsed() - t_wr, 2)
+    # how the marker is visible on the called object: (form, mark, value) rows x rotating sites
+    nvs = 0
+    vs = 0
+    per_row = 3 if quick else 10
+    t_vs = ctx.elapsed()
+    for i, (vis, mark, value) in enumerate(VS.rows()):
+        if not ctx.mine(i):
+            continue
+        for k in range(per_row):
+            j = i * 7 + k * 11 + ctx.seed
+            # the first case of a row sits at the print site (always reached)
+            case = visible_case_for(j, vis, mark, value, "print" if k == 0 else sites[j % len(sites)])
+            if not visible_valid(case):
+                continue
+            nvs += 1
+            if run_visible_case(ctx, case) and vs < 1 and ctx.shard in (14, 15) and vis in VS.DYNAMIC:
+                vs += 1
+                ctx.sample(dict(case, source=compose(case)[0]))
+    rng = ctx.rng("visiblerand")
+    for _ in range(25 if quick else 400):
+        run_visible_case(ctx, visible_random_case(rng))
+    ctx.count("visible_core_cases", nvs)
+    ctx.extra["visible_part_seconds_all_shards"] = round(ctx.elapsed() - t_vs, 2)
     rng = ctx.rng("rand")
     n_max = 900 if quick else 40000
     i = 0
@@ -2594,6 +2800,8 @@ def replay(ctx, case):
         run_flag_case(ctx, case, count=False)
     elif case.get("wrapped"):
         run_wrapped_case(ctx, case, count=False)
+    elif case.get("visible"):
+        run_visible_case(ctx, case, count=False)
     elif case.get("bm"):
         run_bm_case(ctx, case, count=False)
     elif case.get("cc"):
